@@ -55,6 +55,28 @@ func c01Gen(t *rapid.T) c01Case {
 	if c.Gap {
 		o.BadSlots = c01BadSlots
 	}
+	if rapid.IntRange(0, 15).Draw(t, "deep") == 0 {
+		// a deep pipeline: a held head request with more than a thousand completed requests piling up behind it
+		n := rapid.SampledFrom([]int{1022, 1023, 1024, 1025, 1500, 2600}).Draw(t, "behind")
+		head := keyFor(100, 0, 0, 0)
+		cs := ClientSpec{Reqs: []Req{{Name: Bin("get"), Args: []Bin{head}}}}
+		c.Spec.Plans = append(c.Spec.Plans, Plan{Key: head, Hold: true})
+		mix := rapid.IntRange(0, 2).Draw(t, "mix")
+		for i := 1; i <= n; i++ {
+			if mix == 0 || (mix == 2 && i%3 == 0) {
+				cs.Reqs = append(cs.Reqs, Req{Name: Bin("ping")})
+			} else {
+				cs.Reqs = append(cs.Reqs, Req{Name: Bin("get"), Args: []Bin{keyFor(6000+i%5, 0, i, 0)}})
+			}
+		}
+		if rapid.Bool().Draw(t, "deepquit") {
+			cs.Reqs = append(cs.Reqs, Req{Name: Bin("quit")})
+		}
+		c.Spec.Clients = []ClientSpec{cs}
+		c.Spec.Schedule = []int{0}
+		c.Spec.HoldMs = 250
+		return c
+	}
 	nc := rapid.IntRange(1, 4).Draw(t, "nclients")
 	for ci := 0; ci < nc; ci++ {
 		c.Spec.Clients = append(c.Spec.Clients, genClientPipe(t, ci, o, &c.Spec.Plans))
@@ -105,6 +127,10 @@ func c01Classify(c *c01Case) (bool, []string) {
 			cls = append(cls, "out-of-order-release")
 			break
 		}
+	}
+	if c.Spec.HoldMs > 0 {
+		nt = true
+		cls = append(cls, "deep-pipeline-behind-held-head")
 	}
 	cls = append(cls, fmt.Sprintf("clients-%d", len(c.Spec.Clients)), fmt.Sprintf("sconns-%d", c.Cfg.ServerConns))
 	return nt, dedup(cls)
